@@ -622,8 +622,10 @@ class MidiMessageDispatcher(AbstractWrappingDispatcher):
     def __call__(self, data, midi_in):
         mt = data['type']
         if mt in self.active:
-            for func in self.active[mt]:
-                fn.value(func, data, midi_in)
+            for func in self.active[mt][:]:
+                # May be removed by a previous responder (e.g. one shot).
+                if func in self.active.get(mt, ()):
+                    fn.value(func, data, midi_in)
 
     def register(self):
         _libsc3.main._midi_interface.add_recv_func(self)
